@@ -687,8 +687,14 @@ inductive EvictsWF (t : TinyLFU) (size : Nat) (w : Int) (incEst : Nat) :
         fillNeed size (a.delete k.id).1.kw (sample.filter (fun x => x.id != k.id)) →
       (AMap.NoDup a.kw → sample'.length = min size (a.delete k.id).1.kw.length) →
       SampleWF t size (a.delete k.id).1.kw sample' →
+      (a.delete k.id).1.spaceOverflow = false →
       EvictsWF t size w incEst (a.delete k.id).1 sample' st a' vs →
       EvictsWF t size w incEst a sample st a' (k :: vs)
+  /-- the re-check after the eviction overflows `i64`: the worker panics (`Evicts.overflow`) -/
+  | overflow {a : Adm} {sample : List SKey} (k : SKey) :
+      SampleWF t size a.kw sample → a.max - a.used < w → k.coldestOf sample → k.est ≤ incEst →
+      (a.delete k.id).1.spaceOverflow = true →
+      EvictsWF t size w incEst a sample .pending (a.delete k.id).1 [k]
 
 /-- the strengthened relation implies the declarative rule of Properties/C06.lean (so all its consequences —
     `C06_victims_colder`, `C06_accepted_iff`, `C06_final_state`, … — apply) -/
@@ -699,7 +705,8 @@ theorem C06_EvictsWF_implies_Evicts {t : TinyLFU} {size : Nat} {w : Int} {incEst
   | enough _ hge => exact .enough hge
   | exhausted hlt => exact .exhausted hlt
   | hotter k _ hlt hc hh => exact .hotter k hlt hc hh
-  | evict k sample' _ hlt hc hle hfresh _ _ _ _ _ ih => exact .evict k sample' hlt hc hle hfresh ih
+  | evict k sample' _ hlt hc hle hfresh _ _ _ _ hno _ ih => exact .evict k sample' hlt hc hle hfresh hno ih
+  | overflow k _ hlt hc hle hov => exact .overflow k hlt hc hle hov
 
 /-- the sample a derivation starts from is well formed (and so, rule by rule, is every later one: the premise of
     `evict` is again an `EvictsWF`) -/
@@ -710,7 +717,8 @@ theorem C06_EvictsWF_sample_wf {t : TinyLFU} {size : Nat} {w : Int} {incEst : Na
   | enough hwf _ => exact hwf
   | exhausted _ => exact SampleWF.nil _ _ _
   | hotter _ hwf _ _ _ => exact hwf
-  | evict _ _ hwf _ _ _ _ _ _ _ _ _ => exact hwf
+  | evict _ _ hwf _ _ _ _ _ _ _ _ _ _ => exact hwf
+  | overflow _ hwf _ _ _ _ => exact hwf
 
 /-- every victim is a well-formed member of the sample it was popped from: charged at that moment, with the charged
     weight and the sketch's estimate of its charged hash; so every victim IS reported to the delete hook -/
@@ -721,7 +729,7 @@ theorem C06_EvictsWF_victims_charged {t : TinyLFU} {size : Nat} {w : Int} {incEs
   | enough _ _ => intro pre k post e; simp at e
   | exhausted _ => intro pre k post e; simp at e
   | hotter _ _ _ _ _ => intro pre k post e; simp at e
-  | evict k0 _ hwf _ hc _ _ _ _ _ _ _ ih =>
+  | evict k0 _ hwf _ hc _ _ _ _ _ _ _ _ ih =>
     intro pre k post e
     cases pre with
     | nil =>
@@ -732,6 +740,17 @@ theorem C06_EvictsWF_victims_charged {t : TinyLFU} {size : Nat} {w : Int} {incEs
       simp only [List.cons_append, List.cons.injEq] at e
       obtain ⟨rfl, e⟩ := e
       exact ih pre' k post e
+  | overflow k0 hwf _ hc _ _ =>
+    intro pre k post e
+    cases pre with
+    | nil =>
+      simp only [List.nil_append, List.cons.injEq] at e
+      obtain ⟨rfl, _⟩ := e
+      exact hwf.2.2 _ hc.1
+    | cons p pre' =>
+      simp only [List.cons_append, List.cons.injEq] at e
+      obtain ⟨_, e⟩ := e
+      simp at e
 
 /-- **C06_sample_wellformed: every successful run of the `create_space` loop from a well-formed sample follows the
     rule WITH well-formed samples throughout** (`EvictsWF`), with the same exact bookkeeping as
@@ -789,6 +808,13 @@ theorem C06_sample_wellformed (t : TinyLFU) (size : Nat) (w : Int) (incEst : Nat
               have hcolder : k.est ≤ incEst := by omega
               simp only [] at h
               split at h
+              · rename_i hov
+                cases h
+                refine ⟨[k], [], .overflow k hwf hlt hcold hcolder hov, by simp, Or.inl rfl, ?_⟩
+                simp only [evictedOf]
+                cases (a.delete k.id).2 <;> simp
+              rename_i hnov
+              split at h
               · cases h
               · rename_i sample'' o' hfill
                 have hfwf := SampleWF.delete_filter hwf k.id
@@ -804,7 +830,7 @@ theorem C06_sample_wellformed (t : TinyLFU) (size : Nat) (w : Int) (incEst : Nat
                   exact hsub x (List.mem_filter.mpr ⟨hx, by simpa using hne⟩)
                 have hflen := filter_id_length sample hwf.2.1 hmem
                 refine ⟨k :: vs, spared, ?_, ?_, hsp, ?_⟩
-                · refine .evict k sample'' hwf hlt hcold hcolder hfresh hkeep (by omega) ?_ hwf'' hE
+                · refine .evict k sample'' hwf hlt hcold hcolder hfresh hkeep (by omega) ?_ hwf'' (by simpa using hnov) hE
                   intro hnd
                   have hnd' : AMap.NoDup (a.delete k.id).1.kw := by
                     rcases Adm.delete_kw a k.id with e | ⟨e, _⟩
@@ -832,7 +858,7 @@ theorem C06_initial_sample_size (t : TinyLFU) (size : Nat) (kw : AMap Nat WKey) 
 /-- **`maybe_add` as a whole, with well-formed samples**: `C06_maybeAdd_rule` with `Evicts` strengthened to `EvictsWF`,
     the initial sample well formed and of exactly `min size |kw|` members. -/
 theorem C06_sample_wellformed_maybeAdd (t : TinyLFU) (size : Nat) (a : Adm) (id key hash : Nat) (w : Int) (o : Oracle)
-    (r : AdmResult) (hmax : ¬ (w > a.max)) (hlt : a.max - a.used < w)
+    (r : AdmResult) (hmax : ¬ (w > a.max)) (hno : a.spaceOverflow = false) (hlt : a.max - a.used < w)
     (h : maybeAdd t size a id key hash w o = .ok r) :
     ∃ (incEst : Nat) (sample vs spared : List SKey) (a' : Adm) (o1 o2 : Oracle),
       estimateO t hash o = .ok (incEst, o1) ∧
@@ -847,7 +873,7 @@ theorem C06_sample_wellformed_maybeAdd (t : TinyLFU) (size : Nat) (a : Adm) (id 
       r.evicted = evictedOf a vs := by
   unfold maybeAdd at h
   have hnfit : ¬ (a.max - a.used ≥ w) := by omega
-  simp only [hmax, hnfit, if_false] at h
+  simp only [hmax, hno, hnfit, if_false, Bool.false_eq_true] at h
   split at h
   · cases h
   · rename_i incEst o1 hest
@@ -908,7 +934,7 @@ example : ∃ incEst sample vs a', EvictsWF exLFU 3 6 incEst exAdm sample .accep
     simp only [exView, Except.toOption, Option.map_some, Option.some.injEq, ExView.mk.injEq] at hv
     obtain ⟨hst, hpp, _⟩ := hv
     obtain ⟨incEst, sample, vs, spared, a', o1, o2, _, _, _, hwf, hlen, hE, _, _, hpop, hsp, _⟩ :=
-      C06_sample_wellformed_maybeAdd exLFU 3 exAdm 4 104 14 6 _ r (by decide) (by decide) hr
+      C06_sample_wellformed_maybeAdd exLFU 3 exAdm 4 104 14 6 _ r (by decide) (by decide) (by decide) hr
     have hspared : spared = [] := by
       rcases hsp with h | ⟨k, _, _, h⟩
       · exact h
